@@ -48,3 +48,31 @@ def run(rep, name, rng, n, model_ok):
 def _differs(tokens):
     c = " ".join(tokens)
     return vlib.run_lines(vlib.ATOMH, ["seq"], [c], shards=1)[0] != vlib.run_model([c], shards=1)[0]
+
+
+def run_taskset(rep, name, rng, n, model_ok):
+    """the real util/task_set.rs under the deterministic scheduler (wakers racing with the owner's
+    take / iterate / drop), judged by an oracle and replayed step by step in TaskSetConc.v"""
+    import tsetreplay
+    cases = tsetreplay.gen(rng, n)
+    outs = vlib.run_lines(vlib.ATOMH, ["seq"], cases)
+    real = [(c, o) for c, o in zip(cases, outs) if not o.startswith("OK |") and not o.startswith("BUDGET")]
+    distinct = len(set(o.split("|", 1)[1] for o in outs if "|" in o))
+    rep.cov["evaluations"] += len(cases)
+    rep.cov["distinct_nontrivial"] += distinct
+    part = {"schedules": len(cases), "distinct_traces": distinct, "oracle_failures": len(real)}
+    if real:
+        c, o = min(real, key=lambda x: len(x[0]))
+        rep.violation(name + "-oracle", {"kind": "property-violated-on-implementation", "case": c, "verdict": o.split("|")[0].strip(),
+                                         "trace": o.split("|", 1)[1][:3000] if "|" in o else o, "failures": len(real)})
+    if model_ok:
+        k, nsteps, bad, skipped = tsetreplay.replay(cases, outs)
+        part.update({"traces_replayed": k, "model_steps": nsteps, "disagreements": len(bad), "traces_not_mapped": len(skipped)})
+        rep.cov["traces_validated_against_impl"] += k
+        if (bad or skipped) and not real:
+            b = min(bad, key=lambda x: len(x["case"])) if bad else {"case": skipped[0]["case"], "why": "trace not mapped: " + skipped[0]["why"]}
+            d = {"kind": "broken-correspondence", "what": "a trace of the real util/task_set.rs is not a run of TaskSetConc.v (for which 'no wake-up is lost' is proved)",
+                 "disagreements": len(bad), "not_mapped": len(skipped)}
+            d.update(b)
+            rep.violation(name + "-model-replay", d, no_input=True)
+    rep.cov.setdefault("parts", {})[name] = part
